@@ -26,6 +26,7 @@ From Ase Require Import Proofs.EndToEndTotal.
 From Ase Require Import Proofs.EndToEndTilesets.
 From Ase Require Import Proofs.EndToEndCels.
 From Ase Require Import Proofs.EndToEndTotalTs.
+From Ase Require Import Proofs.EndToEndIff.
 
 (* (a) framing inverts the serialiser: every program, either count field, any bytes after it *)
 Theorem C01_framing_serialize :
@@ -371,3 +372,22 @@ Print Assumptions C01_e2e_headline_ts.
 Theorem C01_e2e_tilesets_example_ok : sprite_ok_ts TilesetExample.ts_prog.
 Proof. exact ts_sprite_ok_ts. Qed.
 Print Assumptions C01_e2e_tilesets_example_ok.
+
+(* ---------------- the conditions are necessary as well (Proofs/EndToEndIff.v) ---------------- *)
+
+(* a fold of `step` that succeeds processed only events that were allowed *)
+Theorem C01_fold_ok_inv :
+  forall (n d : Z) (evs : list ev) (p : pinfo),
+    Forall ev_wf evs -> rfold step evs (pinfo_new n d) = Ok p -> events_ok n [] evs.
+Proof. exact fold_ok_inv. Qed.
+Print Assumptions C01_fold_ok_inv.
+
+(* THE CHARACTERISATION: a serialised well-formed program loads exactly when sprite_ok_ts holds of it; so sprite_ok_ts is the
+   "well-formed sprite" of the property read off the program, and every program outside it is refused (C15, with C04: by an
+   error value) *)
+Theorem C01_load_serialize_iff :
+  forall (inflate : list Z -> Z -> zres) (s : sprite_prog) (tail : list Z),
+    wf_prog s -> inflate_ok inflate s ->
+    ((exists f, load inflate (serialize s ++ tail) = Ok f) <-> sprite_ok_ts s).
+Proof. exact load_serialize_iff. Qed.
+Print Assumptions C01_load_serialize_iff.
